@@ -59,5 +59,10 @@ ROWS = {
   "property-based testing (rapid): round trip through an independent XMP serialiser with typed text-to-value rules; metamorphic attribute form vs element form",
   "A logical record (1-14 of 38 supported simple properties with typed values whose lengths land on the reader's look-ahead steps, plus five dc arrays and ISOSpeedRatings) is serialised with generated layout choices (form per property, quotes, order, 1-3 Description blocks, white space incl. TAB/CR/long runs, unknown properties, junk, xpacket wrapper, entities) and parsed: the result must equal the record field by field, the all-attribute and all-element forms must parse identically, and a token longer than the 1538-byte window must give an error.",
   "Trusted: the serialiser in internal/xmpgen and the text-to-value rules in props/c13 (DESIGN Appendix B). Value alphabet excludes raw markup characters; GPS DMS text, dates without seconds and rdf:parseType structures are not generated."),
+
+ "C04": ("exploration",
+  "stateful property-based testing (rapid): generated call histories with pool poisoning through verification hooks; pristine-state differential and retention invariant",
+  "Histories of 4-30 steps (decodes over every entry point and a pool of well-formed / truncated / hostile / mis-sized / zone-respelled inputs, perceptual hashes of right- and wrong-size images, poisoning of the Exif buffer pool and pixel pools with hostile contents, GCs) run in one process; every call must give the digest it gives on pristine state, and every returned value is re-digested after each later step and must not change.",
+  "Trusted: hooks exif2.VerifResetPools/VerifPoisonPool/VerifNewBuffers and imagehash.VerifResetPixelPools/VerifPoisonPixelPools (build tag verif); internal/digest. bufio reader pools (imagemeta, jpeg, isobmff) are exercised through ordinary history only."),
 }
 NOT_APPLICABLE = {}
